@@ -10,6 +10,7 @@ def statelessStep (sec : String) : Option (String → Option (String × Option S
   | "c05" => some SpiceDrv.step
   | "c20" => some SpiceDrv.stepWF
   | "c19" => some (fun l => if l.startsWith "MP" || l.startsWith "WT" then CodecDrv.step l else some ("skip", none))
+  | "tamper" => some (fun l => if l.startsWith "TV " || l.startsWith "SHA " || l.startsWith "B58 " then TxDrv.step l else some ("skip", none))
   | _ => none
 
 partial def loopStateless (h : IO.FS.Stream) (f : String → Option (String × Option String))
